@@ -199,6 +199,9 @@ func (c *c04) Plan(seed uint64, tier string, worker, workers, idx int) *Plan {
 		}
 	}
 	r := core.NewRand(core.Mix(seed, 0xc04, uint64(worker), uint64(idx)))
+	if r.Chance(1, 60) {
+		return floodPlan(r, "C04")
+	}
 	p := &Plan{Prop: "C04", Limit0: c04Limits[r.Intn(len(c04Limits))], MaxSteps: 60000000}
 	if r.Chance(1, 12) {
 		p.Limit0 = bigLimit(r)
